@@ -567,4 +567,15 @@ example :
     Spec.Cifs.encodeOptional c env = some [2, 1, 0, 2, 0, 0, 0] := by
   decide +kernel
 
+/-! ## WriteRequest after fixes/C04-writerequest-data-block.diff -/
+
+/-- the repaired program passes `Conforms` (it was the one entry of `non_conforming_commands`: `Data` went out ahead of
+    the word count), so `conforms_sound` speaks about it; on the assignment that showed the defect the MS-CIFS encoder
+    and `Marshal` now give the same bytes: five parameter words, then `BufferFormat 01, DataLength, Data` inside the data block -/
+example : Conforms cmd_WriteRequest = true := by decide +kernel
+example : Manticore.Spec.Cifs.encode cmd_WriteRequest
+    [("FID", .n 0x1234), ("CountOfBytesToWrite", .n 2), ("WriteOffsetInBytes", .n 0),
+     ("EstimateOfRemainingBytesToBeWritten", .n 0), ("Data", .t ([1, 2], [[0x61, 0x62]]))] =
+    some [0x05, 0x34, 0x12, 0x02, 0x00, 0, 0, 0, 0, 0, 0, 0x05, 0x00, 0x01, 0x02, 0x00, 0x61, 0x62] := by decide +kernel
+
 end Manticore.C05
